@@ -425,3 +425,33 @@ Proof.
   intros Hp Hl. destruct (orun_inv es _ (oinit_inv sc n) p pr Hp) as (pre & Hpre & Hin). rewrite Hl, app_nil_r in Hpre. subst pre.
   unfold schema_full. apply forallb_forall. intros o Ho. apply existsb_exists. exists o. split; [apply Hin, Ho|apply Nat.eqb_refl].
 Qed.
+
+(* ------------------------------------------------------------------ the journal-mode switch of the constructor *)
+Lemma src_wal_switch_retried : wal_switch_retried = true.  Proof. reflexivity. Qed.
+
+Lemma wal_fold_stable retried answers st : st <> WalTodo ->
+  fold_left (fun st b => wal_attempt retried b st) answers st = st.
+Proof.
+  revert st. induction answers as [|b r IH]; intros st H; cbn [fold_left]; [reflexivity|].
+  rewrite IH; destruct st; try reflexivity; try exact H; congruence.
+Qed.
+Lemma wal_fold_retried answers : forall st, st <> WalFailed ->
+  fold_left (fun st b => wal_attempt true b st) answers st <> WalFailed.
+Proof.
+  induction answers as [|b r IH]; intros st H; cbn [fold_left]; [exact H|].
+  apply IH. destruct st, b; cbn [wal_attempt]; congruence.
+Qed.
+(* whatever sqlite answers, however often: a constructor that repeats the switch never fails on it *)
+Theorem wal_never_fails answers : wal_run true answers <> WalFailed.
+Proof. unfold wal_run. apply wal_fold_retried. discriminate. Qed.
+(* ... and the first attempt that finds the lock free completes the switch for good *)
+Theorem wal_done_after_free pre post : Forall (fun b => b = true) pre -> wal_run true (pre ++ false :: post) = WalDone.
+Proof.
+  intros H. unfold wal_run. rewrite fold_left_app. cbn [fold_left].
+  assert (E : fold_left (fun st b => wal_attempt true b st) pre WalTodo = WalTodo).
+  { induction H as [|b r Hb _ IH]; cbn [fold_left]; [reflexivity|]. subst b. exact IH. }
+  rewrite E. cbn [wal_attempt]. apply wal_fold_stable. discriminate.
+Qed.
+(* the pinned tree executed the statement once: one refusal and the constructor raises "database is locked" *)
+Theorem wal_unretried_refuted : exists answers, wal_run false answers = WalFailed.
+Proof. exists [true]. reflexivity. Qed.
